@@ -249,6 +249,12 @@ func (p *P) pkgLevel(r *core.Result, src *tape.Source, ctl *pool.Ctl, ctxmsg str
 			out = append(out, probe.Res{Name: in.Name + "/parser.ParseBytesWithTokens", Canon: treeCanon(a, err) + " tokens=" + canon.Of(toks)})
 			stmts, errs := gosqlx.ParseWithRecovery(in.SQL)
 			out = append(out, probe.Res{Name: in.Name + "/gosqlx.ParseWithRecovery", Canon: "stmts=" + canon.Of(stmts) + " errs=" + canon.Of(errs)})
+			if err == nil && toks != nil {
+				// pooled parser behind ParseMultiWithRecovery; Release puts it back
+				rr := parser.ParseMultiWithRecovery(toks)
+				out = append(out, probe.Res{Name: in.Name + "/parser.ParseMultiWithRecovery", Canon: "stmts=" + canon.Of(rr.Statements) + " errs=" + canon.Of(rr.Errors)})
+				rr.Release()
+			}
 		}
 		return out
 	}
